@@ -156,6 +156,27 @@ pub fn gen_case(seed: u64, run: u64, faults: bool, real_every: u64) -> Case {
                 argv.insert(at, format!("--bpaf-complete-style-{}", style).into_bytes());
             }
             17 => {}
+            18 if r.chance(1, 2) => {
+                // words after `--` that look like requests: they are positional words
+                argv = if r.chance(1, 2) {
+                    vec![]
+                } else {
+                    gen::base_sentence(&mut r, &opts, false)
+                };
+                argv.retain(|t| t != b"--");
+                argv.push(b"--".to_vec());
+                let h = gen::help_tokens(&opts);
+                for _ in 0..r.range(1, 3) {
+                    let w = match r.below(4) {
+                        0 => r.pick(&h).clone(),
+                        1 => format!("--bpaf-complete-rev={}", r.pick(&[0usize, 7, 8, 9][..])).into_bytes(),
+                        2 => format!("--bpaf-complete-style-{}", r.pick(&["bash", "zsh", "fish", "elvish"][..]))
+                            .into_bytes(),
+                        _ => b"w".to_vec(),
+                    };
+                    argv.push(w);
+                }
+            }
             18 => no_argv0 = r.chance(1, 2),
             _ => argv = gen::base_sentence(&mut r, &opts, true),
         }
@@ -425,7 +446,12 @@ pub fn stdout_has_cause(opts: &Opts, rest: &[Tok]) -> bool {
             usage_cmd_names.extend(names);
         }
     }
-    for t in rest {
+    // a bare `--` ends option processing for every level: what follows are positional words that
+    // can neither ask for help nor name a command
+    let dd = rest.iter().position(|t| t == b"--");
+    let before = &rest[..dd.unwrap_or(rest.len())];
+    let after_dd = dd.map_or(0, |ix| rest.len() - ix - 1);
+    for t in before {
         let text = String::from_utf8_lossy(t);
         if let Some(l) = text.strip_prefix("--") {
             let name = l.split('=').next().unwrap_or("");
@@ -442,11 +468,7 @@ pub fn stdout_has_cause(opts: &Opts, rest: &[Tok]) -> bool {
             return true;
         }
     }
-    if usage_top
-        && rest
-            .iter()
-            .all(|t| t == b"--" || t.starts_with(b"--bpaf-complete-"))
-    {
+    if usage_top && after_dd == 0 && before.iter().all(|t| t.starts_with(b"--bpaf-complete-")) {
         return true;
     }
     false
@@ -861,7 +883,19 @@ pub fn run_case(case: &Case, stats: &mut Stats) -> RunReport {
                 )
             );
         }
-        if e.class == "completion" && !rest.iter().any(|t| t.starts_with(b"--bpaf-complete-rev=")) {
+        let switches = &rest[..rest.iter().position(|t| t == b"--").unwrap_or(rest.len())];
+        if e.class == "script" && !switches.iter().any(|t| t.starts_with(b"--bpaf-complete-style-")) {
+            violation!(
+                "P5",
+                ix,
+                "rule=P5 script-without-request".to_string(),
+                format!(
+                    "a completion script was dumped although no `--bpaf-complete-style-*` switch precedes the first `--` of {:?}; words after `--` are positional",
+                    rest.iter().map(|t| String::from_utf8_lossy(t).to_string()).collect::<Vec<_>>()
+                )
+            );
+        }
+        if e.class == "completion" && !switches.iter().any(|t| t.starts_with(b"--bpaf-complete-rev=")) {
             violation!(
                 "P5",
                 ix,
